@@ -265,6 +265,54 @@ def compare_profiles(r, where, have, want, n):
             r.check(a.shape[-1] == n, 'length', '%s/length/%s' % (where, k), got=a.shape, N=n)
 
 
+# ---------------------------------------------------------------------------------------------
+# history phase: structure parameters updated on one live model (what a retrieval does), every
+# sequence up to the depth bound, against a fresh model with the net settings and the reference
+# ---------------------------------------------------------------------------------------------
+HIST_ALPHABET = [['planet_radius', 0.6], ['planet_radius', 1.5], ['planet_mass', 0.4], ['planet_mass', 2.5],
+                 ['T', 600.0], ['T', 2100.0], ['atm_max_pressure', 1e5], ['atm_max_pressure', 1e7],
+                 ['atm_min_pressure', 1e-3], ['atm_min_pressure', 1e0], ['H2O', 1e-6], ['H2O', 0.3], ['He_H2', 0.5]]
+HIST_REDUCED = [['planet_radius', 0.6], ['planet_radius', 1.5], ['planet_mass', 0.4], ['T', 600.0], ['H2O', 0.3],
+                ['atm_max_pressure', 1e5]]
+STRUCT_ATTRS = ['pressureProfile', 'temperatureProfile', 'densityProfile', 'altitudeProfile', 'gravity_profile',
+                'scaleheight_profile', 'deltaz', 'altitude_boundaries']
+
+
+def hist_build(case):
+    from mc import fixtures as fx
+    from taurex.cache import OpacityCache
+    fx.reset_caches()
+    OpacityCache().add_opacity(fx.TinyOp('H2O', fx.WN_GRIDS[4], fx.T_GRIDS[3], fx.P_GRIDS[3],
+                                         fx.table(3, 3, 4, 1e-27, salt=('c11', 'H2O'))))
+    return fx.build_model({'kind': case['kind'], 'N': case['N'], 'T': ['iso', 1200.0],
+                           'gases': [['H2O', ['const', 1e-4]]], 'contribs': ['abs'], 'ngauss': 2})
+
+
+def _struct_eval(r, live, fresh, sig):
+    from mc.ref import hydro
+    from taurex.constants import KBOLTZ, G
+    for a in STRUCT_ATTRS:
+        r.eq(np.asarray(getattr(live, a), float), np.asarray(getattr(fresh, a), float), 'history-structure',
+             'history-structure/%s/%s' % (a, sig), rtol=1e-12, atol=0.0)
+    # and against first principles on the live object: g_i = G M / (R + z_i)^2, H_i = k T_i / (mu_i g_i)
+    z = np.asarray(live.altitudeProfile, float)
+    g_ref = G * live.planet.fullMass / (live.planet.fullRadius + z) ** 2
+    r.eq(np.asarray(live.gravity_profile, float), g_ref, 'history-gravity-inverse-square',
+         'history-gravity/' + sig, rtol=1e-9)
+    H_ref = KBOLTZ * np.asarray(live.temperatureProfile, float) / (np.asarray(live.chemistry.muProfile, float) * g_ref)
+    r.eq(np.asarray(live.scaleheight_profile, float), H_ref, 'history-scaleheight', 'history-scaleheight/' + sig,
+         rtol=1e-9)
+    r.eq(np.asarray(live.densityProfile, float), np.asarray(live.pressureProfile, float) /
+         (KBOLTZ * np.asarray(live.temperatureProfile, float)), 'history-density', 'history-density/' + sig, rtol=1e-12)
+
+
+def hist_fn(case):
+    from mc import rthist
+    r = core.R(case)
+    rthist.run_history(r, case['hist'], lambda: hist_build(case), 'structure/' + case['kind'], extra_eval=_struct_eval)
+    return r
+
+
 def explore(ctx):
     dims = {'N': NS, 'psource': PSOURCES, 'planet': list(PLANETS), 'mu': MULETTERS, 'prange': list(PRANGES),
             'T': TLETTERS, 'model': MODELS}
@@ -275,4 +323,14 @@ def explore(ctx):
         cases = core.product_cases(dims, core=['N', 'psource', 'planet', 'mu'], d=2)
     cases = [c for c in cases if not (c['N'] < 2 and c['psource'] != 'simple')]
     ctx.bounds.update(layer_counts=dims['N'], cases=len(cases), deviations='full' if ctx.tier == 'thorough' else 2)
-    ctx.run_cases('case_fn', cases)
+    ctx.run_cases('case_fn', cases, phase='inputs')
+    from mc import rthist
+    if ctx.tier == 'thorough':
+        hs = rthist.histories(HIST_ALPHABET, 3, HIST_REDUCED, 4)
+        cfgs = [('transmission', 4), ('emission', 3), ('transmission', 1)]
+    else:
+        hs = rthist.histories(HIST_ALPHABET, 2, HIST_REDUCED, 3)
+        cfgs = [('transmission', 4), ('emission', 3)]
+    hcases = [{'kind': k, 'N': n, 'hist': h} for (k, n) in cfgs for h in hs]
+    ctx.bounds.update(histories=len(hcases), history_depth=3 if ctx.tier == 'thorough' else 2)
+    ctx.run_cases('hist_fn', hcases, phase='histories')
